@@ -79,7 +79,7 @@ func runC01(c *Ctx) {
 				fn := core.FuncName(s.Fn)
 				pos := s.Alloc.Pos()
 				eqs := pathEqs(pi.Atoms)
-				pstr := pi.Path.String()
+				pstr := pi.Desc
 				if npaths <= 3 {
 					R.Sample(map[string]any{"function": fn, "site": p.PosStr(pos), "class": cls, "path": pstr, "atoms": atomsString(pi.Atoms),
 						"TTL": pi.Fields["TTL"].String(), "IsDest": pi.Fields["IsDest"].String()})
@@ -174,7 +174,7 @@ func runC01(c *Ctx) {
 					R.FailPath("R01.3", key, pos, fn, "accept path of unrecognised reply form (neither ICMP quote, direct TCP nor echo reply): undecided", pstr)
 				}
 				// R01.4 lookup + TTL provenance
-				lks := findLookups(d, pi.Atoms)
+				lks := findLookups(c.P, d, pi.Atoms)
 				ttl := pi.Fields["TTL"]
 				okLookup := false
 				var used *lookupInfo
@@ -206,6 +206,14 @@ func runC01(c *Ctx) {
 					R.FailPath("R01.4", key+"/lookup", pos, fn, "no successful sent-probe lookup keyed by the quoted identifier governs this accept path, or the reported TTL ("+ttl.String()+") does not come from it", pstr)
 				} else {
 					R.OK("R01.4", key+"/lookup", pos, fn, "lookup "+used.Call.Name+" succeeded; TTL = "+ttl.String())
+				}
+				// R01.4c: a successful lookup means "this probe was emitted", not merely "the key is inside the table"
+				if used != nil {
+					if ok, why := entryPresence(c, d, used.Call, pi.Atoms); ok {
+						R.OK("R01.4", key+"/entry-present", pos, fn, why)
+					} else {
+						R.FailPath("R01.4", key+"/entry-present", pos, fn, why, pstr)
+					}
 				}
 				// R01.5 narrowing before the range check
 				if used != nil {
@@ -272,14 +280,11 @@ func runC01(c *Ctx) {
 			checkLastProbeAccessor(c, d)
 		}
 		// R01.4b accessor reads the table SendProbe writes
-		_, w := recvFieldsTouched(p, d.SendProbe)
-		r2, _ := recvFieldsTouched(p, d.ReceiveProbe)
 		common := []string{}
-		for f := range w {
-			if r2[f] {
-				common = append(common, f)
-			}
+		for f := range SentTableKeys(p, d) {
+			common = append(common, f)
 		}
+		sort.Strings(common)
 		R.Check(len(common) > 0, "R01.4", d.Name+"#probe-table", d.ReceiveProbe.Pos(), d.Name, "sent-probe table shared between SendProbe (writer) and ReceiveProbe (reader): "+strings.Join(common, ","), "ReceiveProbe reads no field that SendProbe writes: lookups cannot refer to sent probes")
 		// R01.7
 		checkRejectSilent(c, d)
@@ -515,18 +520,26 @@ func checkSentTableWriters(c *Ctx, d Driver) {
 	R := c.R
 	shared := sharedFields(c.P, d)
 	tables := map[string]bool{}
-	st, _ := d.Named.Underlying().(*types.Struct)
-	if st == nil {
+	// of the shared storage, the containers (maps / slices): their entries are what the matcher reads as "sent"
+	sp0 := c.P.SSAPkgs[d.Pkg]
+	if sp0 == nil {
 		return
 	}
-	for i := 0; i < st.NumFields(); i++ {
-		f := st.Field(i)
-		if !shared[f.Name()] {
+	for _, f := range c.P.ModFuncs {
+		if core.FuncPkg(f) != sp0.Pkg {
 			continue
 		}
-		switch f.Type().Underlying().(type) {
-		case *types.Map, *types.Slice:
-			tables[f.Name()] = true
+		for _, b := range f.Blocks {
+			for _, in := range b.Instrs {
+				if fa, ok := in.(*ssa.FieldAddr); ok {
+					if k, _ := typedFieldKey(fa); shared[k] {
+						switch fa.Type().Underlying().(*types.Pointer).Elem().Underlying().(type) {
+						case *types.Map, *types.Slice:
+							tables[k] = true
+						}
+					}
+				}
+			}
 		}
 	}
 	R.Floor("R01.9:sent-table-fields:"+d.Name, len(tables), 1)
@@ -535,12 +548,8 @@ func checkSentTableWriters(c *Ctx, d Driver) {
 		if !ok {
 			return "", false
 		}
-		pt, ok := fa.X.Type().Underlying().(*types.Pointer)
-		if !ok || !types.Identical(pt.Elem(), d.Named) {
-			return "", false
-		}
-		n := core.FieldName(fa)
-		return n, tables[n]
+		k, _ := typedFieldKey(fa)
+		return k, tables[k]
 	}
 	loadOfTable := func(v ssa.Value) (string, bool) {
 		if ld, ok := v.(*ssa.UnOp); ok {
@@ -627,4 +636,163 @@ func checkSentTableWriters(c *Ctx, d Driver) {
 		visit(w.fn)
 		R.Check(bad == "", "R01.9", key, w.in.Pos(), core.FuncName(w.fn), "sent-probe table entry is created only on the SendProbe path", "an entry of the sent-probe table "+w.field+" is created on a path that does not come from SendProbe (reached from "+bad+"): the matcher treats every entry as an emitted probe, so a reply quoting a probe that was never sent can fill a hop")
 	}
+}
+
+// tableKinds classifies the sent-probe tables of a driver: "map", "appended" (a slice that grows by append: every element was
+// put there by SendProbe) or "presized" (a slice made with its final length: an element exists before its probe does).
+func tableKinds(p *core.Prog, d Driver) map[string]string {
+	out := map[string]string{}
+	pkg := core.FuncPkg(d.ReceiveProbe)
+	keys := SentTableKeys(p, d)
+	for _, f := range p.ModFuncs {
+		if core.FuncPkg(f) != pkg {
+			continue
+		}
+		for _, b := range f.Blocks {
+			for _, in := range b.Instrs {
+				fa, ok := in.(*ssa.FieldAddr)
+				if !ok {
+					continue
+				}
+				k, _ := typedFieldKey(fa)
+				if !keys[k] {
+					continue
+				}
+				switch fa.Type().Underlying().(*types.Pointer).Elem().Underlying().(type) {
+				case *types.Map:
+					out[k] = "map"
+				case *types.Slice:
+					if out[k] == "" {
+						out[k] = "presized"
+					}
+					for _, r := range *fa.Referrers() {
+						if st, ok := r.(*ssa.Store); ok && st.Addr == ssa.Value(fa) {
+							if call, ok := st.Val.(*ssa.Call); ok {
+								if bi, ok := call.Common().Value.(*ssa.Builtin); ok && bi.Name() == "append" {
+									out[k] = "appended"
+								}
+							}
+						}
+					}
+				}
+			}
+		}
+	}
+	return out
+}
+
+// isPresenceAtom: the (normalised) condition says a value is not the zero value / a comma-ok lookup succeeded; it returns the
+// term whose presence is established.
+func presenceSubject(a core.Atom) *core.Term {
+	n := a.Norm()
+	t := n.Cond
+	switch {
+	case !n.Sign && t.Op == "call" && t.Name == "(time.Time).IsZero" && len(t.Args) == 1:
+		return t.Args[0]
+	case !n.Sign && t.Op == "binop" && t.Name == "==" && len(t.Args) == 2 && t.Args[1].Op == "zero":
+		return t.Args[0]
+	case !n.Sign && t.Op == "binop" && t.Name == "==" && len(t.Args) == 2 && t.Args[0].Op == "zero":
+		return t.Args[1]
+	case n.Sign && t.Op == "extract" && t.Name == "1" && len(t.Args) == 1 && t.Args[0].Op == "lookup":
+		return t.Args[0]
+	}
+	return nil
+}
+
+// entryPresence decides R01.4c for the lookup `call` that governs an accept path with conditions atoms.
+func entryPresence(c *Ctx, d Driver, call *core.Term, atoms []core.Atom) (bool, string) {
+	site, ok := call.Val.(*ssa.Call)
+	if !ok || site.Common().StaticCallee() == nil {
+		return true, "lookup is not a static call: entry presence not examined"
+	}
+	L := site.Common().StaticCallee()
+	pkg := core.FuncPkg(d.ReceiveProbe)
+	kinds := tableKinds(c.P, d)
+	// which tables the lookup reads
+	needs := false
+	fieldNames := map[string]bool{}
+	for _, g := range ModReach(c.P, L) {
+		if core.FuncPkg(g) != pkg {
+			continue
+		}
+		for _, b := range g.Blocks {
+			for _, in := range b.Instrs {
+				if fa, ok := in.(*ssa.FieldAddr); ok {
+					if k, _ := typedFieldKey(fa); kinds[k] != "" {
+						fieldNames[core.FieldName(fa)] = true
+						if kinds[k] != "appended" {
+							needs = true
+						}
+					}
+				}
+			}
+		}
+	}
+	if !needs {
+		return true, "the table grows by append only: every element is a sent probe"
+	}
+	ck := call.Key()
+	// matcher level: the looked-up value is tested against the zero value on this path
+	for _, a := range atoms {
+		if sub := presenceSubject(a); sub != nil && strings.Contains(sub.Key(), ck) {
+			return true, "the matcher rejects the zero value of " + call.Name
+		}
+	}
+	// accessor level: every success path of the lookup establishes presence of the element it read
+	isTableAccess := func(t *core.Term) bool {
+		return t.Has(func(x *core.Term) bool {
+			if (x.Op == "index" || x.Op == "lookup") && len(x.Args) > 0 {
+				names, _ := fieldChain(x.Args[0])
+				return len(names) > 0 && fieldNames[names[0]]
+			}
+			return false
+		})
+	}
+	res := L.Signature.Results()
+	errIdx, boolIdx := -1, -1
+	for i := 0; i < res.Len(); i++ {
+		if isErrorType(res.At(i).Type()) {
+			errIdx = i
+		}
+		if b, ok := res.At(i).Type().Underlying().(*types.Basic); ok && b.Kind() == types.Bool {
+			boolIdx = i
+		}
+	}
+	if errIdx < 0 && boolIdx < 0 {
+		return false, "the lookup " + call.Name + " reads a table whose slots exist before their probes are sent and reports absence only through a zero value, which the matcher does not test: a reply quoting a TTL that was never probed is accepted"
+	}
+	ips := InlinedPaths(c.P, L, inlineOpts{pkg: pkg, stop: hasLoop})
+	nsucc := 0
+	for _, ip := range ips {
+		switch {
+		case errIdx >= 0:
+			if !ip.Results[errIdx].IsConst("nil") {
+				continue
+			}
+		case boolIdx >= 0:
+			if ip.Results[boolIdx].IsConst("false") {
+				continue
+			}
+		}
+		nsucc++
+		present := false
+		if errIdx < 0 && boolIdx >= 0 {
+			// the ok result is the comma-ok of the table lookup itself: the matcher's test of it is the presence test
+			if r := ip.Results[boolIdx]; r.Op == "extract" && r.Name == "1" && len(r.Args) == 1 && r.Args[0].Op == "lookup" && isTableAccess(r.Args[0]) {
+				present = true
+			}
+		}
+		for _, a := range ip.Atoms {
+			if sub := presenceSubject(a); sub != nil && isTableAccess(sub) {
+				present = true
+			}
+		}
+		if !present {
+			return false, "a success path of the lookup " + call.Name + " (" + ip.Desc + ") does not test that the slot it read was filled (non-zero value / comma-ok): the table's slots exist before their probes are sent, so a reply quoting a TTL that was never probed is accepted"
+		}
+	}
+	if nsucc == 0 {
+		return false, "the lookup " + call.Name + " has no success path: undecided"
+	}
+	return true, fmt.Sprintf("every success path of %s (%d) tests that the slot it read was filled", call.Name, nsucc)
 }
